@@ -221,6 +221,8 @@ class Run:
         kw = {}
         if cfg["timeout"] is not None:
             kw["timeout"] = cfg["timeout"]
+        if cfg.get("verbose"):
+            kw["verbose"] = cfg["verbose"]
         p = Parallel(n_jobs=nj, backend=be, batch_size=cfg["bs"], pre_dispatch=cfg["pre"], return_as=cfg["mode"], **kw)
         self.p = p
         busy = [False]; idle = [0]
@@ -275,6 +277,10 @@ class Run:
         p._lock = SchedLock()
         saved_time = jp.time
         jp.time = types.SimpleNamespace(time=lambda: R.clock, sleep=lambda t: sched_point("sleep"))
+        import contextlib, io
+        quiet = contextlib.ExitStack()
+        if cfg.get("verbose"):
+            quiet.enter_context(contextlib.redirect_stdout(io.StringIO())); quiet.enter_context(contextlib.redirect_stderr(io.StringIO()))
         try:
             if cfg["managed"] is True:
                 R.bev("Enter")
@@ -286,6 +292,7 @@ class Run:
             R.bev("Done")
         finally:
             jp.time = saved_time
+            quiet.close()
         self.backend_log = be.log
         return self
 
@@ -318,6 +325,12 @@ class Run:
 
             class It:
                 def __init__(s, c): s.c = c; s.i = 0
+                if iterfail == "len":
+                    def __len__(s):
+                        # len(iterable) is evaluated by Parallel.__call__ for its progress messages
+                        R.ev(ev="PullIn", c=s.c, th=1); R.ev(ev="PullRaise", c=s.c, th=1)
+                        raise IterError(s.c)
+
                 def __iter__(s):
                     if iterfail == "iter":
                         # the iterable itself cannot be iterated: iter(iterable) raises inside Parallel.__call__
